@@ -31,9 +31,9 @@ theorem embedded_defaults : peersDefaultPresent = [0, 1, 1, 0] ∧ electrumDefau
 
 /-- C44 (c): for every accepted flag combination the Ethereum and the Bitcoin network are those
 of one and the same `network.Type` — the selected one (no flag set at all: both stay unknown). -/
-theorem networks_consistent (f : Flags) (p e : Src) (cs : List Src) (h : f.accepted = true) :
-    (readConfig f p e cs).eth = ethOf (chainNetwork f) ∧
-    (readConfig f p e cs).btc = btcOf (chainNetwork f) := by
+theorem networks_consistent (f : Flags) (p e : Src) (cs ts : List Src) (h : f.accepted = true) :
+    (readConfig f p e cs ts).eth = ethOf (chainNetwork f) ∧
+    (readConfig f p e cs ts).btc = btcOf (chainNetwork f) := by
   simp [readConfig, h]
 
 /-- the selection itself: `--testnet` ⇒ testnet, `--developer` ⇒ developer, otherwise mainnet;
@@ -47,8 +47,8 @@ theorem selection (f : Flags) (h : f.nilFlags = false) :
   simp only at h; subst h
   cases m <;> cases t <;> cases d <;> simp [Flags.accepted, clientNetwork]
 
-theorem rejected_reads_nothing (f : Flags) (p e : Src) (cs : List Src) (h : f.accepted = false) :
-    readConfig f p e cs = ⟨.flags, 0, 0, .none, .none, []⟩ := by
+theorem rejected_reads_nothing (f : Flags) (p e : Src) (cs ts : List Src) (h : f.accepted = false) :
+    readConfig f p e cs ts = ⟨.flags, 0, 0, .none, .none, [], []⟩ := by
   simp [readConfig, h]
 
 /-! ### explicit values -/
@@ -72,10 +72,10 @@ private theorem resolveAll_get (cs : List Src) (k i : Nat) (hi : i < cs.length) 
 /-- C44 (a): explicitly configured peers, Electrum URL and contract addresses are kept, under
 every accepted network selection (a flag overrides the file; an invalid address is kept, not
 replaced). -/
-theorem explicit_kept (f : Flags) (p e : Src) (cs : List Src) (h : f.accepted = true) :
-    (∀ v, explicit p = some v → (readConfig f p e cs).peers = v) ∧
-    (∀ v, explicit e = some v → (readConfig f p e cs).electrum = v) ∧
-    (∀ i (hi : i < cs.length) v, explicit cs[i] = some v → (readConfig f p e cs).contracts[i]? = some v) := by
+theorem explicit_kept (f : Flags) (p e : Src) (cs ts : List Src) (h : f.accepted = true) :
+    (∀ v, explicit p = some v → (readConfig f p e cs ts).peers = v) ∧
+    (∀ v, explicit e = some v → (readConfig f p e cs ts).electrum = v) ∧
+    (∀ i (hi : i < cs.length) v, explicit cs[i] = some v → (readConfig f p e cs ts).contracts[i]? = some v) := by
   refine ⟨?_, ?_, ?_⟩
   · intro v hv; simp [readConfig, h, hv, resolve]
   · intro v hv; simp [readConfig, h, hv, resolve]
@@ -85,10 +85,10 @@ theorem explicit_kept (f : Flags) (p e : Src) (cs : List Src) (h : f.accepted = 
 
 /-- C44 (b): a default is filled in **iff** the value was left unset (and then it is the default
 of the selected network, if one is embedded). -/
-theorem default_iff_unset (f : Flags) (p e : Src) (cs : List Src) (h : f.accepted = true) :
-    ((∃ n, (readConfig f p e cs).peers = .dflt n) ↔
+theorem default_iff_unset (f : Flags) (p e : Src) (cs ts : List Src) (h : f.accepted = true) :
+    ((∃ n, (readConfig f p e cs ts).peers = .dflt n) ↔
         explicit p = none ∧ ∃ n, peersDefault (clientNetwork f) = .dflt n) ∧
-    ((∃ n, (readConfig f p e cs).electrum = .dflt n) ↔
+    ((∃ n, (readConfig f p e cs ts).electrum = .dflt n) ↔
         explicit e = none ∧ ∃ n, electrumDefault (btcOf (chainNetwork f)) = .dflt n) := by
   constructor
   · simp only [readConfig, h, Bool.not_true, Bool.false_eq_true, if_false]
@@ -97,34 +97,56 @@ theorem default_iff_unset (f : Flags) (p e : Src) (cs : List Src) (h : f.accepte
     cases e <;> simp [explicit, resolve]
 
 /-- the default taken is the one of the selected network, never of another one. -/
-theorem default_of_selected_network (f : Flags) (p e : Src) (cs : List Src) (h : f.accepted = true) (n : Nat) :
-    ((readConfig f p e cs).peers = .dflt n → n = clientNetwork f) ∧
-    ((readConfig f p e cs).electrum = .dflt n → n = btcOf (chainNetwork f)) := by
+theorem default_of_selected_network (f : Flags) (p e : Src) (cs ts : List Src) (h : f.accepted = true) (n : Nat) :
+    ((readConfig f p e cs ts).peers = .dflt n → n = clientNetwork f) ∧
+    ((readConfig f p e cs ts).electrum = .dflt n → n = btcOf (chainNetwork f)) := by
   simp only [readConfig, h, Bool.not_true, Bool.false_eq_true, if_false]
   constructor
   · cases p <;> simp [explicit, resolve, peersDefault] <;> (intro h1; split at h1 <;> simp_all)
   · cases e <;> simp [explicit, resolve, electrumDefault] <;> (intro h1; split at h1 <;> simp_all)
 
 /-- the developer network has no embedded peers / Electrum defaults: unset stays unset. -/
-theorem developer_no_defaults (f : Flags) (p e : Src) (cs : List Src)
+theorem developer_no_defaults (f : Flags) (p e : Src) (cs ts : List Src)
     (hf : f = ⟨false, false, false, true⟩) (hp : explicit p = none) (he : explicit e = none) :
-    (readConfig f p e cs).peers = .none ∧ (readConfig f p e cs).electrum = .none ∧
-    (readConfig f p e cs).rc = .validation := by
+    (readConfig f p e cs ts).peers = .none ∧ (readConfig f p e cs ts).electrum = .none ∧
+    (readConfig f p e cs ts).rc = .validation := by
   subst hf
   simp [readConfig, Flags.accepted, hp, he, resolve, clientNetwork, chainNetwork, peersDefault]
   decide
 
 /-- a contract address default is used only for a contract that is not configured. -/
-theorem contract_default_only_if_not_configured (f : Flags) (p e : Src) (cs : List Src)
+theorem contract_default_only_if_not_configured (f : Flags) (p e : Src) (cs ts : List Src)
     (h : f.accepted = true) (i : Nat) (hi : i < cs.length) (n : Nat)
-    (hd : (readConfig f p e cs).contracts[i]? = some (.dflt n)) :
+    (hd : (readConfig f p e cs ts).contracts[i]? = some (.dflt n)) :
     explicit cs[i] = none ∧ n = i := by
   simp only [readConfig, h, Bool.not_true, Bool.false_eq_true, if_false] at hd
   rw [resolveAll_get cs 0 i hi] at hd
   cases hs : cs[i] <;> simp [hs, explicit, resolve, contractDefault] at hd ⊢
   all_goals (split at hd <;> simp_all)
 
+/-- C44 (a) for the other Electrum settings: an explicitly configured connect / request timeout or
+keep-alive interval is kept under every network selection and whether or not the URL is
+defaulted — default resolution touches only the URL. -/
+theorem electrum_settings_kept (f : Flags) (p e : Src) (cs ts : List Src) (h : f.accepted = true)
+    (i : Nat) (hi : i < ts.length) :
+    (ts[i] = .file → (readConfig f p e cs ts).timeouts[i]? = some .file) ∧
+    ((ts[i] = .flag ∨ ts[i] = .both) → (readConfig f p e cs ts).timeouts[i]? = some .flag) := by
+  simp only [readConfig, h, Bool.not_true, Bool.false_eq_true, if_false, List.getElem?_map,
+    List.getElem?_eq_getElem hi, Option.map_some]
+  constructor
+  · intro hs; simp [hs, resolveTimeout]
+  · rintro (hs | hs) <;> simp [hs, resolveTimeout]
+
 /-! ### the monitor accepts every model output -/
+
+private theorem holdsTimeouts_map (n : Bool) (ts : List Src) :
+    holdsTimeouts ts (ts.map (resolveTimeout n)) = true := by
+  induction ts with
+  | nil => rfl
+  | cons s ss ih =>
+    simp only [List.map_cons, holdsTimeouts, ih, Bool.and_true]
+    cases s <;> cases n <;> simp [holdsTimeout, resolveTimeout]
+
 
 private theorem holdsVal_resolve (s : Src) (d : Val) : holdsVal s d (resolve (explicit s) d) = true := by
   cases s <;> simp [holdsVal, explicit, resolve]
@@ -135,20 +157,23 @@ private theorem holdsVals_resolveAll (cs : List Src) (k : Nat) : holdsVals cs (r
   | cons s ss ih => simp [holdsVals, resolveAll, holdsVal_resolve, ih]
 
 /-- Soundness link: the monitor accepts the model's output for every input. -/
-theorem holds_model (f : Flags) (p e : Src) (cs : List Src) :
-    holds f p e cs (readConfig f p e cs) = true := by
+theorem holds_model (f : Flags) (p e : Src) (cs ts : List Src) :
+    holds f p e cs ts (readConfig f p e cs ts) = true := by
   by_cases h : f.accepted = true
-  · simp [holds, readConfig, h, holdsVal_resolve, holdsVals_resolveAll]
+  · simp [holds, readConfig, h, holdsVal_resolve, holdsVals_resolveAll, holdsTimeouts_map]
     split <;> simp
   · simp only [Bool.not_eq_true] at h
     simp [holds, readConfig, h]
 
 /-- not vacuous: an overridden explicit peer list, a default of the wrong network, and a
 testnet selection with a mainnet Bitcoin network are rejected. -/
-example : holds ⟨false, false, true, false⟩ .file .unset [] ⟨.ok, 2, 2, .dflt 2, .dflt 2, []⟩ = false := by decide
-example : holds ⟨false, false, true, false⟩ .unset .unset [] ⟨.ok, 2, 2, .dflt 1, .dflt 2, []⟩ = false := by decide
-example : holds ⟨false, false, true, false⟩ .unset .unset [] ⟨.ok, 2, 1, .dflt 2, .dflt 1, []⟩ = false := by decide
-example : holds ⟨false, false, true, false⟩ .unset .unset [] ⟨.ok, 2, 2, .dflt 2, .dflt 2, []⟩ = true := by decide
-example : holds ⟨false, false, false, false⟩ .unset .flag [.file] ⟨.ok, 1, 1, .dflt 1, .flag, [.none]⟩ = false := by decide
+example : holds ⟨false, false, true, false⟩ .file .unset [] [] ⟨.ok, 2, 2, .dflt 2, .dflt 2, [], []⟩ = false := by decide
+example : holds ⟨false, false, true, false⟩ .unset .unset [] [] ⟨.ok, 2, 2, .dflt 1, .dflt 2, [], []⟩ = false := by decide
+example : holds ⟨false, false, true, false⟩ .unset .unset [] [] ⟨.ok, 2, 1, .dflt 2, .dflt 1, [], []⟩ = false := by decide
+example : holds ⟨false, false, true, false⟩ .unset .unset [] [] ⟨.ok, 2, 2, .dflt 2, .dflt 2, [], []⟩ = true := by decide
+example : holds ⟨false, false, false, false⟩ .unset .flag [.file] [] ⟨.ok, 1, 1, .dflt 1, .flag, [.none], []⟩ = false := by decide
+-- an explicit timeout zeroed while the URL is defaulted (seeded C44-b)
+example : holds ⟨false, false, true, false⟩ .unset .unset [] [.file] ⟨.ok, 2, 2, .dflt 2, .dflt 2, [], [.zero]⟩ = false := by decide
+example : holds ⟨false, false, true, false⟩ .unset .unset [] [.file] ⟨.ok, 2, 2, .dflt 2, .dflt 2, [], [.file]⟩ = true := by decide
 
 end KeepVerif.C44
